@@ -64,6 +64,9 @@ func aggregate(prop string, cfg PropConfig, reports []*FuncReport, known []Known
 		res.Reports = append(res.Reports, rep)
 		if os.Getenv("GOVC_VERBOSE") != "" {
 			fmt.Printf("func %-50s paths=%d returns=%d queries=%d solver=%dms wall=%dms\n", rep.Func, rep.Paths, rep.Returns, rep.Queries, rep.SolverMs, rep.WallMs)
+			for _, u := range rep.Unreached {
+				fmt.Printf("  UNREACHED %s: %s\n", rep.Func, u)
+			}
 		}
 		res.SolverMs += rep.SolverMs
 		for _, t := range rep.trusted {
@@ -71,6 +74,9 @@ func aggregate(prop string, cfg PropConfig, reports []*FuncReport, known []Known
 		}
 		if rep.Aborted != "" {
 			res.Undecided = append(res.Undecided, rep.Func+": "+rep.Aborted)
+		}
+		for _, u := range rep.Unreached {
+			res.Undecided = append(res.Undecided, rep.Func+": no explored path enters "+u+" (the model may hide behaviour; declare it with 'dead PATTERN' if it is defensive code)")
 		}
 		for _, u := range rep.Unsup {
 			res.Undecided = append(res.Undecided, rep.Func+": unsupported: "+u)
@@ -180,14 +186,14 @@ func aggregate(prop string, cfg PropConfig, reports []*FuncReport, known []Known
 	if res.Trusted == nil {
 		res.Trusted = []string{}
 	}
+	for _, v := range res.Vacuity {
+		res.Lines = append(res.Lines, fmt.Sprintf("BROKEN property=%s vacuity: %s", prop, v))
+	}
 	switch {
-	case len(res.Vacuity) > 0:
-		for _, v := range res.Vacuity {
-			res.Lines = append(res.Lines, fmt.Sprintf("BROKEN property=%s vacuity: %s", prop, v))
-		}
-		res.Exit = 3
 	case res.Violations > 0:
 		res.Exit = 1
+	case len(res.Vacuity) > 0:
+		res.Exit = 3
 	case len(res.Undecided) > 0:
 		res.Exit = 2
 	case res.Obligations == 0:
